@@ -5,7 +5,7 @@ import sys
 
 from common import repo_import
 from opt_common import css_read
-from proto import bitsf, fbits, run_lines, unhex
+from proto import bitsf, fbits, run_lines, unhex, t3
 
 _m = {}
 FORMATS = ["hex", "rgb", "hsl", "rgb_tuple"]
@@ -71,8 +71,8 @@ def w_fmt(slab):
             elif isinstance(out, str):
                 impl_enc = "s:" + out.encode().hex()
             else:
-                impl_enc = "t:%d,%d,%d" % tuple(out)
-            impl_back = "ok %d %d %d" % own if isinstance(own, tuple) else "err value"
+                impl_enc = t3(out)
+            impl_back = t3(own, "ok ", " ") if isinstance(own, tuple) else "err value"
             if ms[0] != impl_enc or ms[1] != impl_back:
                 # hsl numbers: accept 1e-12 relative
                 okn = False
